@@ -40,15 +40,20 @@ Theorem C09_to_date_equals_truncated_history : forall period from_day D D' allow
   match compute period from_day D allow exs hos t fs with Ok cd => Ok (restrict D t cd) | Err e => Err e end.
 Proof. exact to_date_equiv. Qed.
 
-(** the whole computation: the matcher on the truncated history yields the truncated fractions, hence (D' = no to-date) *)
+(** the whole computation: the matcher on the truncated history yields the truncated fractions, hence (D' = no to-date);
+    the truncated history must still contain an acquisition (otherwise RP2 rejects the sheet: empty IN table), its
+    well-formedness then follows from that of the full history (C09_truncated_history_wellformed) *)
 Theorem C09_to_date_equals_truncated_history_end_to_end : forall period from_day D D' allow exs hos sched t evs cd,
   time_sorted t -> dates_monotone t -> taxable_events t = Ok evs ->
-  wf (t_ins t) sched (map event_of evs) ->
-  wf (t_ins (trunc_txs D t)) sched (map event_of (filter (fun x => txn_day x <=? D) evs)) ->
-  D <= D' ->
+  wf (t_ins t) sched (map event_of evs) -> t_ins (trunc_txs D t) <> [] -> D <= D' ->
   compute_tax period from_day D allow exs hos sched t = Ok cd ->
   compute_tax period from_day D' allow exs hos sched (trunc_txs D t) = Ok (restrict D t cd).
-Proof. exact compute_tax_to_date_equiv. Qed.
+Proof. exact compute_tax_to_date_equiv_built. Qed.
+Theorem C09_truncated_history_wellformed : forall D sched t evs,
+  time_sorted t -> dates_monotone t -> taxable_events t = Ok evs ->
+  wf (t_ins t) sched (map event_of evs) -> t_ins (trunc_txs D t) <> [] ->
+  wf (t_ins (trunc_txs D t)) sched (map event_of (filter (fun x => txn_day x <=? D) evs)).
+Proof. exact wf_trunc. Qed.
 
 Theorem C09_truncated_matching : forall D sched t evs,
   time_sorted t -> dates_monotone t -> taxable_events t = Ok evs ->
@@ -135,6 +140,7 @@ Proof. exact later_transactions_change_nothing. Qed.
 Print Assumptions C09_prefix_stable.
 Print Assumptions C09_to_date_equals_truncated_history.
 Print Assumptions C09_to_date_equals_truncated_history_end_to_end.
+Print Assumptions C09_truncated_history_wellformed.
 Print Assumptions C09_truncated_matching.
 Print Assumptions C09_reported_fields_untouched.
 Print Assumptions C09_to_date_refuted.
